@@ -494,22 +494,31 @@ def check_t4(chk, ml):
                 continue
             r = e.res
             tests = []
+            tconds = []
             for n, (c, taken, inst) in enumerate(p.conds):
                 cc = strip_casts(c)
                 if cc[0] == "icmp" and strip_casts(cc[2]) == r and cc[3][0] == "c":
                     v = cc[3][2]
                     tests.append((cc[1], v - (1 << 32) if v >> 31 else v, bool(taken), p.cond_pos[n], inst))
+                    tconds.append((c, taken, inst))
                 elif cc[0] == "icmp" and strip_casts(cc[3]) == r and cc[2][0] == "c":
                     v = cc[2][2]
                     swap = {"slt": "sgt", "sgt": "slt", "sle": "sge", "sge": "sle", "ult": "ugt", "ugt": "ult", "ule": "uge", "uge": "ule"}
                     tests.append((swap.get(cc[1], cc[1]), v - (1 << 32) if v >> 31 else v, bool(taken), p.cond_pos[n], inst))
+                    tconds.append((c, taken, inst))
             if not tests:
                 continue
             n_tests += 1
             pts = {-(1 << 31), -1, 0, 1, (1 << 31) - 1}
+            # (the result may reach the test through a conversion: values that a narrower type folds onto another sign class)
+            pts |= {s_ * v_ for s_ in (1, -1) for v_ in (127, 128, 129, 200, 255, 256, 257, 32767, 32768, 40000, 65535, 65536, 65537)}
             for t in tests:
                 pts |= {x for x in (t[1] - 1, t[1], t[1] + 1) if -(1 << 31) <= x < (1 << 31)}
-            S = sorted(x for x in pts if all(_icmp_holds(t[0], x, t[1]) == t[2] for t in tests))
+            # each test is evaluated as written, conversions of the comparator's result included
+            try:
+                S = sorted(x for x in pts if all(paths.cond_holds(cd, {r: x & 0xffffffff}) for cd in tconds))
+            except paths.NoValue:
+                S = sorted(x for x in pts if all(_icmp_holds(t[0], x, t[1]) == t[2] for t in tests))
             loc = tests[-1][4].loc
             txt = " and ".join("%sr %s %d" % ("" if t[2] else "not ", t[0], t[1]) for t in tests)
             first_is_node = e.args[0] == ("arg", 1)
